@@ -103,3 +103,10 @@ impl PreloadUnverifiedBlocksChannel {
         }
     }
 }
+
+#[cfg(feature = "verif-hooks")]
+impl PreloadUnverifiedBlocksChannel {
+    pub(crate) fn verif_preload(&self, task: LonelyBlockHash) {
+        self.preload_unverified_channel(task)
+    }
+}
